@@ -310,6 +310,8 @@ def origins(body):
         m = re.fullmatch(r"\((_\d+)\.(\d+): .*\)", expr)
         if m:
             return of(m.group(1), depth + 1) + f".{m.group(2)}"
+        if depth < 12 and _LOCAL.search(expr):
+            return "expr(" + _LOCAL.sub(lambda mm: of(mm.group(0), depth + 2), expr) + ")"
         return "expr(" + expr + ")"
 
     def of(local, depth=0):
